@@ -703,11 +703,17 @@ func (gs *GossipSubRouter) Attach(p *PubSub) {
 
 	// connect to direct peers
 	if len(gs.direct) > 0 {
+		// gs.direct belongs to the event loop (AddDirectPeer / RemoveDirectPeer
+		// write it), so the goroutine works on a copy
+		direct := make([]peer.ID, 0, len(gs.direct))
+		for p := range gs.direct {
+			direct = append(direct, p)
+		}
 		go func() {
 			if gs.params.DirectConnectInitialDelay > 0 {
 				time.Sleep(gs.params.DirectConnectInitialDelay)
 			}
-			for p := range gs.direct {
+			for _, p := range direct {
 				gs.connect <- connectInfo{p: p}
 			}
 		}()
